@@ -241,7 +241,7 @@ def run_e2(prop, ctx, queries, twin):
         names='universe %r; every function: per name absent/required/defaulted x positional/keyword-only/positional-only (endpoint, render); provides/endpoint_provides/render_provides, URL bindings, application and route resources: any subset of the universe' % (U,),
         per_query='one z3 query decides all assignments of a shape (several hundred Booleans)'))
     res.outside += ['*args/**kwargs, functools.partial, classes as endpoints (outside the quantifier)', 'names beyond the universe (the arithmetic is name-uniform: an argument, not a solver result)',
-                    'get_fb extraction from real callables is validated on materialised samples (7 callable kinds), not symbolic',
+                    'get_fb extraction from real callables is validated on materialised samples (8 callable kinds: function, lambda, bound method, callable object, staticmethod, classmethod, clastic_decorator-wrapped, functools.wraps wrapper of a function another application has already bound), not symbolic',
                     'merge_middlewares uniqueness interplay (C03/C10): stacks here have pairwise distinct middleware types', 'keyword-only `next`']
     res.assumptions += ['z3 Boolean/pseudo-Boolean reasoning', 'AST interpreter semantics for the subset used (any other construct aborts the check as unsupported)']
     return res
